@@ -320,6 +320,7 @@ BuildCase(opty, steps, f, rawArgs, style) ==
       vars |-> SuppliedOf(args), opName |-> IF Named(style) THEN "Op" ELSE "",
       style |-> style, target |-> f, steps |-> steps, nsent |-> NumArgs(rawArgs, 1, 0, <<>>).n]
 
+HoldsSecret(rawArgs) == \E j \in 1..Len(rawArgs) : HasS(rawArgs[j].val) \/ VNodes(rawArgs[j].val) # {}
 DepthFor(steps) == IF ShapeBudget > Len(steps) THEN ShapeBudget - Len(steps) ELSE 0
 Ops == {"query", "mutation", "subscription"}
 Init == g \in {[stage |-> "path", op |-> o, steps |-> <<>>, ty |-> RootOf(o)] : o \in Ops}
@@ -327,9 +328,8 @@ Extend == /\ g.stage = "path" /\ Len(g.steps) < MaxSteps
           /\ \E st \in StepsFrom(g.ty) : g' = [g EXCEPT !.steps = Append(@, st), !.ty = TypeAfter(g.ty, st)]
 Finish == /\ g.stage = "path"
           /\ \E f \in Targets(g.ty), style \in Styles :
-               \E rawArgs \in ArgProd(g.ty, f, SeqOf(ArgsOf(g.ty, f)), 1, DepthFor(g.steps)) :
-                 /\ \E j \in 1..Len(rawArgs) : HasS(rawArgs[j].val) \/ VNodes(rawArgs[j].val) # {}
-                 /\ g' = [stage |-> "done", case |-> BuildCase(g.op, g.steps, f, rawArgs, style)]
+               \E rawArgs \in {a \in ArgProd(g.ty, f, SeqOf(ArgsOf(g.ty, f)), 1, DepthFor(g.steps)) : HoldsSecret(a)} :
+                 g' = [stage |-> "done", case |-> BuildCase(g.op, g.steps, f, rawArgs, style)]
 Next == Extend \/ Finish
 Done == g.stage = "done"
 
